@@ -28,6 +28,7 @@ pub fn form_name(f: Form) -> &'static str {
         Form::Byte => "Byte",
         Form::AddSlice => "AddSlice",
         Form::AddByte => "AddByte",
+        Form::IterInexact => "IterInexact",
     }
 }
 pub fn form_from(s: &str) -> Option<Form> {
